@@ -58,6 +58,8 @@ fn both_formats<T: serde::Serialize + serde::de::DeserializeOwned>(out: &mut Out
 pub fn run(out: &mut Out, tier: &str, seed: u64) {
     let mut rng = Rng::new(seed, "c16");
     let thorough = tier == "thorough";
+    #[cfg(feature = "nightly")]
+    { let mut r2 = Rng::new(seed, "c16-nightly"); crate::c16n::run(out, tier, &mut r2); }
     fixed::<8>(out, &mut rng); fixed::<16>(out, &mut rng); fixed::<24>(out, &mut rng); fixed::<32>(out, &mut rng); fixed::<64>(out, &mut rng);
     let maxlen = if thorough { 300 } else { 80 };
     let (k, n): ([u8; 32], [u8; 24]) = (rng.arr(), rng.arr());
